@@ -18,7 +18,7 @@ PATHS = ["ra", "ralen", "outdeg", "iter", "iter_from", "next_from", "seq_iter", 
 # input lists; scan degrees = list lengths; scan offsets = Elias-Fano entries = record positions
 ORACLE = {"i_load"} | {"i_" + p for p in PATHS} | {"degs", "offs", "ef", "depth"}
 # model against implementation
-CORR = {"rt", "m_ra", "m_merge", "m_outdeg", "m_iter_from", "m_seq_from", "m_next", "m_offdeg", "m_offdeg_from",
+CORR = {"rt", "m_ra", "m_merge", "m_outdeg", "m_iter_from", "m_iter_ring", "m_seq_from", "m_next", "m_offdeg", "m_offdeg_from",
         "m_fuel"}
 
 
@@ -34,7 +34,7 @@ def run(ctx):
     runs = [
         ("seq", 40, 300 if quick else 6000, 0),      # all start positions 0..n
         ("chain", 40, 120 if quick else 2500, 1),    # long reference chains, small windows
-        ("seq", 160, 20 if quick else 300, 2),       # larger graphs, sampled start positions
+        ("seq", 120, 12 if quick else 300, 2),       # larger graphs, sampled start positions
     ]
     rs = []
     for (mode, maxn, count, so) in runs:
